@@ -5,3 +5,8 @@ import os, sys
 sys.path.insert(0, os.path.dirname(os.path.abspath(__file__)))
 import gen_dispatch
 gen_dispatch.main()
+
+import subprocess, build_repo, vlib
+b = build_repo.get_build("default")
+subprocess.run(["python3", os.path.join(vlib.VERIF, "tools", "gen_rolling_table.py"),
+                os.path.join(b, "src", "rolling_hash", "rolling_hash2_table.h"), vlib.LEAN], check=True)
